@@ -121,6 +121,10 @@ def _counter_increment(F, f, b, t, defs):
     pa = op_place(rv["a"]) if isinstance(rv["a"], dict) else None
     if not (isinstance(kb, dict) and str(kb.get("bits")) == "1" and pa is not None):
         return None
+    # a 64-bit counter that is read from a field, counted up by one and written back (a generation / sequence number): one step per
+    # event the process handles; 2^64 events do not happen in the lifetime of a process
+    if isinstance(kb, dict) and kb.get("ty") == "u64" and pa["p"] and any(isinstance(e, dict) and "f" in e for e in pa["p"]):
+        return "increment by one of a u64 sequence number kept in a field (2^64 steps are out of reach for a running process)"
     # chase copies back to the counter variable
     l = pa["l"]
     for _ in range(4):
